@@ -66,7 +66,7 @@ func (e *Engine) verifyFunction(fn *ssa.Function, con *Contract) *FuncResult {
 		fc.checkAnchors(con)
 	}()
 	res.Obligations = fc.obs
-	if con != nil && len(con.Extra["thin"]) > 0 {
+	if con != nil && len(con.Extra["thin"]) > 0 && !fc.eng.lockMode {
 		// thin contract: only obligations of the named kinds are claimed for this function; the rest
 		// of its body (callee preconditions that need the full functional model, safety of unrelated
 		// code) is not under contract and is reported as such
@@ -220,7 +220,7 @@ func (fc *FnCtx) frameGoals(st *State) (goals []frameGoal) {
 	if con == nil || fc.entry == nil {
 		return // safety sweep: no frame claimed
 	}
-	if con.Thread {
+	if con.Thread || con.WriteSetFrame {
 		return
 	}
 	for _, a := range con.Assigns {
